@@ -229,14 +229,19 @@ pub fn world(ch: &mut Chooser) -> World {
     // ---------------- use site
     let site_names: Vec<&str> = SITES.iter().map(|s| s.0).collect();
     let site = ch.pick("site", &site_names, 0);
-    let name = ["x", "zz", "k", "G", "1", "a_in", "q_out", "io_v"][ch.pick("name", &["declared-local", "undeclared", "constant-k", "external-G", "literal", "declared-input", "declared-output", "declared-in-out"], 1)];
+    // names that something else declares (a function block, a function, a program, a type) are no variables
+    let name = ["x", "zz", "k", "G", "1", "a_in", "q_out", "io_v", "Callee", "Fn", "Main", "Level"][ch.pick(
+        "name",
+        &["declared-local", "undeclared", "constant-k", "external-G", "literal", "declared-input", "declared-output", "declared-in-out", "name-of-a-function-block", "name-of-a-function", "name-of-a-program", "name-of-a-type"],
+        1,
+    )];
     let (site_label, template, is_target) = SITES[site];
     let name = if is_target && (name == "1" || name == "k" || name == "G" || name == "a_in") { "y" } else { name };
     let stmt = template.replace("{}", name);
     // a statement directly before the use site (resolution state must not leak from one statement to the next)
     let pre = ch.pick("pre", &["none", "enum-assignment", "int-assignment", "fb-call", "string-assignment"], 1);
     let pre_s = ["", "lv := Low ;", "y := 2 ;", "inst ( a := y ) ;", "str := 'abc' ;"][pre];
-    let undeclared = name == "zz" || (name == "k" && kdecl == 1) || (name == "G" && ext == 1);
+    let undeclared = name == "zz" || matches!(name, "Callee" | "Fn" | "Main" | "Level") || (name == "k" && kdecl == 1) || (name == "G" && ext == 1);
     if undeclared {
         w.violated.insert("P0015");
     }
